@@ -76,6 +76,19 @@ def judge(acc, case, prog, cfg, rng):
         if prim - tau > viol * sc:
             findings.append({"key": "primal_exceeds_dual", "what": "primal %.9g > dual %.9g" % (prim, tau),
                              "defect": prim - tau, "scale": sc, "grade": "violated"})
+    # the instance must be the one of the LATEST solve when the same object is solved again after an edit
+    if not any(f["grade"] == "violated" for f in findings) and rng.random() < 0.3:
+        try:
+            r2 = sb.resolve_after_edit(case, cfg, rng)
+        except Exception:
+            r2 = None
+        if r2 is not None:
+            rec2, out2 = r2
+            acc.count("resolves_judged")
+            f2, info2 = oracles.primal_check(rec2, out2[1], cfg.get("mode", "dual"), held_objects=driver.held_objects(case.machine),
+                                             posthoc=make_posthoc(case.machine, rng))
+            for f in f2:
+                findings.append(dict(f, key="after_resolve:" + f["key"], what="second solve of the same object: " + f["what"]))
     return findings
 
 
